@@ -1099,4 +1099,211 @@ theorem newNode_good {cfg : Cfg} (hr : Repaired cfg) {t : Tree} (h : WFTree t) (
       exact ⟨fun _ => g.1 rfl, fun hn => absurd rfl hn⟩
     · exact ⟨fun hh => by simp_all, fun _ _ => rfl⟩
 
+
+theorem orphan_label_wf' {t : Tree} (h : WFTree t) {c : Nat} {l : Str} (hp : t.parent c = none)
+    (hs : '/' ∉ l) : WFTree { t with label := updF t.label c l } := by
+  have := orphan_label_wf h hp hs
+  have e : ({ t with label := updF t.label c l, parent := updF t.parent c none } : Tree) =
+      { t with label := updF t.label c l } := by
+    apply Tree.ext' <;> intros <;> try rfl
+    simp only [updF]; split
+    · rename_i x e; rw [e, hp]
+    · rfl
+  rw [e] at this; exact this
+
+theorem setStarting_wf {t : Tree} (h : WFTree t) (p : Nat) (l : List Nat)
+    (hch : ∀ s ∈ l, ∃ k, (k, s) ∈ t.children p) (hn : l.Nodup) :
+    WFTree { t with starting := updF t.starting p l } := by
+  refine ⟨h.agree, h.keysNodup, h.noClash, h.acyclic, h.wfRoots, ?_, ?_, h.labelsOk⟩
+  · intro q s hs
+    by_cases hq : q = p
+    · subst hq; simp only [updF_same] at hs; exact hch s hs
+    · simp only [updF, hq, if_false] at hs; exact h.starters q s hs
+  · intro q
+    by_cases hq : q = p
+    · subst hq; simp only [updF_same]; exact hn
+    · simp only [updF, hq, if_false]; exact h.startNodup q
+
+/-- `replace_child`: the invariant survives in every case (accepted or not) -/
+theorem replaceChild_wf {cfg : Cfg} (hr : Repaired cfg) {t : Tree} (h : WFTree t) (p old new : Nat) :
+    (replaceChild cfg t p old new).2 ≠ .recursionError → WFTree (replaceChild cfg t p old new).1 := by
+  unfold replaceChild
+  split
+  · exact fun _ => h
+  · rename_i hcomp
+    split
+    · exact fun _ => h
+    · rename_i hpo
+      simp only [ne_eq, Decidable.not_not] at hpo
+      split
+      · exact fun _ => h
+      · rename_i hpn
+        simp only [ne_eq, Decidable.not_not] at hpn
+        have hon : old ≠ new := by intro e; rw [e, hpn] at hpo; cases hpo
+        have hm := (h.mem_vals_iff p old).mpr hpo
+        have hrm : removeChild cfg t p old = (release t p old, .ok) := by
+          unfold removeChild
+          simp only [hcomp, hm, if_true, removeListed_eq cfg h hpo]
+          simp
+        simp only [hrm]
+        have h1 := release_wf h hpo
+        have hp1o : (release t p old).parent old = none := by simp [release, removeCore0]
+        have hp1n : (release t p old).parent new = none := by
+          simp [release, removeCore0, updF, Ne.symm hon, hpn]
+        have h2a := orphan_label_wf' (l := (release t p old).label old) h1 hp1n (h1.labelsOk old)
+        have h2 := orphan_label_wf' (c := old) (l := (release t p old).label new) h2a hp1o (h1.labelsOk new)
+        have hp2n : ({ (release t p old) with
+            label := updF (updF (release t p old).label new ((release t p old).label old)) old
+              ((release t p old).label new) } : Tree).parent new = none := hp1n
+        have hfact : ∀ a, a ∈ ({ (release t p old) with
+            label := updF (updF (release t p old).label new ((release t p old).label old)) old
+              ((release t p old).label new) } : Tree).starting p → t.parent a = some p := by
+          intro a ha
+          have ha' : a ∈ (t.starting p).erase old := by
+            simpa [release, removeCore0] using ha
+          have ha'' := ((h.startNodup p).mem_erase_iff.mp ha').2
+          obtain ⟨k, hk⟩ := h.starters p a ha''
+          exact ((h.agree p a k).mp hk).1
+        generalize ({ (release t p old) with
+            label := updF (updF (release t p old).label new ((release t p old).label old)) old
+              ((release t p old).label new) } : Tree) = t2 at h2 hp2n hfact ⊢
+        rcases addChild_spec hr h2 p new none none with ⟨e, he, hok⟩ | ⟨l', _, hp', _⟩ | ⟨l', he, _, hk, hl, hsl, hanc, hne⟩ | hrec
+        · have hne : e ≠ .ok := by
+            intro e'; have := hok e'; rw [hp2n] at this; cases this
+          rw [he]
+          cases e <;> first | exact absurd rfl hne | exact fun _ => h2
+        · rw [hp2n] at hp'; cases hp'
+        · rw [he]
+          have h3 := adopt_wf h2 hp2n hk hl hsl hanc hne
+          simp only []
+          intro _
+          split
+          · refine setStarting_wf h3 p _ ?_ ?_
+            · intro s hs
+              rcases List.mem_append.mp hs with hs | hs
+              · exact h3.starters p s hs
+              · simp only [List.mem_singleton] at hs; subst hs
+                exact ⟨l', by simp [adopt]⟩
+            · rw [List.nodup_append]
+              refine ⟨h3.startNodup p, by simp, ?_⟩
+              intro a ha b hb
+              simp only [List.mem_singleton] at hb; subst hb
+              intro e; subst e
+              have := hfact a ha
+              rw [hpn] at this; cases this
+          · exact h3
+        · generalize addChild cfg _ p new none none = r at hrec
+          obtain ⟨t3, e⟩ := r
+          simp only at hrec; subst hrec
+          exact fun hh => absurd rfl hh
+
+/-- a replacement that is refused up front (not the owner / replacement already owned) changes
+nothing -/
+theorem replaceChild_refused (cfg : Cfg) (t : Tree) (p old new : Nat)
+    (hpre : (t.kind p).isComposite = false ∨ t.parent old ≠ some p ∨ t.parent new ≠ none) :
+    (replaceChild cfg t p old new).1 = t ∧ (replaceChild cfg t p old new).2 ≠ .ok := by
+  unfold replaceChild
+  split
+  · exact ⟨rfl, by simp⟩
+  · split
+    · exact ⟨rfl, by simp⟩
+    · split
+      · exact ⟨rfl, by simp⟩
+      · rename_i a b c
+        rcases hpre with h | h | h
+        · exact absurd h a
+        · exact absurd h b
+        · exact absurd h c
+
+
+/-! ## operations and histories -/
+
+/-- what is the caller's business, not the library's: a freshly constructed object has no owner
+yet; the user names current children (once each) as starting nodes -/
+def OpPre (t : Tree) : Op → Prop
+  | .new c _ _ => t.parent c = none
+  | .setStarting p l => (∀ s ∈ l, ∃ k, (k, s) ∈ t.children p) ∧ l.Nodup
+  | _ => True
+
+def Op.isReplace : Op → Bool
+  | .replace .. => true
+  | _ => false
+
+theorem step_good {cfg : Cfg} (hr : Repaired cfg) {t : Tree} (h : WFTree t) (op : Op)
+    (hpre : OpPre t op) (hnr : op.isReplace = false) : Good t (step cfg t op) := by
+  cases op with
+  | new c l np => exact newNode_good hr h c l np hpre
+  | add p c lbl s => exact addChild_good hr h p c lbl s
+  | setattr p key c => exact setAttr_good hr h p key c
+  | setparent c np => exact assignParent_good hr h c np
+  | remove p c => exact removeChild_good cfg h p c
+  | removeLabel p l => exact removeChildLabel_good cfg h p l
+  | replace p o n => simp [Op.isReplace] at hnr
+  | setStarting p l => exact ⟨fun _ => setStarting_wf h p l hpre.1 hpre.2, fun hn => absurd rfl hn⟩
+
+/-- every operation, accepted or rejected, leaves a well-formed tree (unless Python's recursion
+limit was hit on the way) -/
+theorem step_wf {cfg : Cfg} (hr : Repaired cfg) {t : Tree} (h : WFTree t) (op : Op)
+    (hpre : OpPre t op) (hrec : (step cfg t op).2 ≠ .recursionError) : WFTree (step cfg t op).1 := by
+  by_cases hnr : op.isReplace = false
+  · have g := step_good hr h op hpre hnr
+    by_cases hok : (step cfg t op).2 = .ok
+    · exact g.1 hok
+    · rw [g.2 hok hrec]; exact h
+  · cases op with
+    | replace p o n => exact replaceChild_wf hr h p o n hrec
+    | _ => simp [Op.isReplace] at hnr
+
+/-- a history all of whose steps meet `OpPre` and stay within the recursion limit -/
+def Admissible (cfg : Cfg) : Tree → List Op → Prop
+  | _, [] => True
+  | t, op :: r => OpPre t op ∧ (step cfg t op).2 ≠ .recursionError ∧ Admissible cfg (step cfg t op).1 r
+
+theorem run_wf {cfg : Cfg} (hr : Repaired cfg) : ∀ (ops : List Op) (t : Tree), WFTree t →
+    Admissible cfg t ops → WFTree (run cfg t ops) := by
+  intro ops
+  induction ops with
+  | nil => intro t h _; exact h
+  | cons op r ih =>
+    intro t h ha
+    simp only [run, List.foldl_cons]
+    exact ih _ (step_wf hr h op ha.1 ha.2.1) ha.2.2
+
+/-! ## ranks -/
+
+theorem exists_rank_of_wf {t : Tree} (hw : WellFounded (Par t)) :
+    ∃ rank : Nat → Nat, ∀ c p, t.parent c = some p → rank p < rank c := by
+  let F : (c : Nat) → ((p : Nat) → Par t p c → Nat) → Nat := fun c ih =>
+    match h : t.parent c with
+    | none => 0
+    | some p => ih p h + 1
+  refine ⟨hw.fix F, ?_⟩
+  intro c p hp
+  rw [WellFounded.fix_eq hw F c]
+  simp only [F]
+  split
+  · rename_i h; rw [hp] at h; cases h
+  · rename_i q h
+    have : q = p := by rw [hp] at h; cases h; rfl
+    subst this
+    omega
+
+theorem wf_of_rank {t : Tree} (rank : Nat → Nat) (h : ∀ c p, t.parent c = some p → rank p < rank c) :
+    WellFounded (Par t) := by
+  apply Subrelation.wf (r := InvImage (· < ·) rank) _ (InvImage.wf rank Nat.lt_wfRel.wf)
+  intro a b hab
+  exact h b a hab
+
+/-- every cycle that an adoption would really close is refused, in every variant, with the
+tree untouched -/
+theorem addChild_ancestor_refused (cfg : Cfg) (t : Tree) (p c : Nat) (lbl : Option Str)
+    (sa : Option Bool) (hanc : Anc t c p) :
+    (addChild cfg t p c lbl sa).1 = t ∧ (addChild cfg t p c lbl sa).2 ≠ .ok := by
+  unfold addChild
+  split
+  · exact ⟨rfl, by simp⟩
+  · have hc : cyclicCheck cfg t p c ≠ .ok := fun h => not_anc_of_cyclicCheck_ok cfg t p c h hanc
+    rw [addChildCore_notok cfg t p c lbl sa _ hc]
+    exact ⟨rfl, hc⟩
+
 end PwVerif.Tree
